@@ -124,21 +124,26 @@ def takeDigits : List UInt8 → List UInt8
   | b :: rest => if isDigit b then b :: takeDigits rest else []
   | [] => []
 
-/-- integer literal `-? (0 | [1-9][0-9]*)` at the head, not followed by `.`/`e`/`E`: `(value, rest)` -/
-def intToken (l : List UInt8) : Option (Int × Bool × List UInt8) :=
-  let (neg, l1) := match l with
-    | 45 :: t => (true, t)
-    | l => (false, l)
-  let ds := match l1 with
-    | 48 :: _ => [48]
-    | d :: _ => if 49 ≤ d && d ≤ 57 then takeDigits l1 else []
-    | [] => []
-  if ds.isEmpty then none
+/-- the digits of an unsigned integer literal at the head: a single `0`, or a maximal digit run starting with `1`-`9` -/
+def uintDigitsOf (l : List UInt8) : List UInt8 :=
+  match l with
+  | 48 :: _ => [48]
+  | d :: _ => if 49 ≤ d && d ≤ 57 then takeDigits l else []
+  | [] => []
+
+/-- unsigned integer literal `0 | [1-9][0-9]*` at the head, not followed by `.`/`e`/`E`: `(value, rest)` -/
+def uintToken (l : List UInt8) : Option (Nat × List UInt8) :=
+  if (uintDigitsOf l).isEmpty then none
   else
-    let rest := l1.drop ds.length
-    match rest with
-    | c :: _ => if c == 46 || c == 101 || c == 69 then none else some (if neg then -(digitsVal ds 0 : Int) else digitsVal ds 0, neg, rest)
-    | [] => some (if neg then -(digitsVal ds 0 : Int) else digitsVal ds 0, neg, rest)
+    match l.drop (uintDigitsOf l).length with
+    | c :: _ => if c == 46 || c == 101 || c == 69 then none else some (digitsVal (uintDigitsOf l) 0, l.drop (uintDigitsOf l).length)
+    | [] => some (digitsVal (uintDigitsOf l) 0, l.drop (uintDigitsOf l).length)
+
+/-- integer literal `-? (0 | [1-9][0-9]*)` at the head, not followed by `.`/`e`/`E`: `(value, negative?, rest)` -/
+def intToken (l : List UInt8) : Option (Int × Bool × List UInt8) :=
+  match l with
+  | 45 :: t => (uintToken t).map (fun (v, rest) => (-(v : Int), true, rest))
+  | l => (uintToken l).map (fun (v, rest) => ((v : Int), false, rest))
 
 /-- typed integer reader: `(value, end offset)` when the token fits `[lo, hi]` (and is unsigned when `!signed`) -/
 def readInt (lo hi : Int) (signed : Bool) (data : List UInt8) : Option (Int × Nat) :=
